@@ -29,6 +29,7 @@ type Config struct {
 	alias  map[string]ssa.Value // tracked field -> the (unresolved) SSA value last stored into it
 	Acts   map[string]bool   // action labels executed
 	locals map[ssa.Value]string
+	phiSrc map[*ssa.Phi]ssa.Value // nil-or-value φs: the non-nil incoming value on this path
 }
 
 func (c *Config) clone() *Config {
@@ -47,6 +48,12 @@ func (c *Config) clone() *Config {
 	}
 	for k, v := range c.Acts {
 		n.Acts[k] = v
+	}
+	for k, v := range c.phiSrc {
+		if n.phiSrc == nil {
+			n.phiSrc = map[*ssa.Phi]ssa.Value{}
+		}
+		n.phiSrc[k] = v
 	}
 	for k, v := range c.locals {
 		n.locals[k] = v
@@ -77,6 +84,9 @@ func (c *Config) fullKey() string {
 	var parts []string
 	for k, v := range c.locals {
 		parts = append(parts, fmt.Sprintf("l:%s=%s", k.Name(), v))
+	}
+	for k, v := range c.phiSrc {
+		parts = append(parts, fmt.Sprintf("p:%s=%s", k.Name(), v.Name()))
 	}
 	sort.Strings(parts)
 	return c.Key() + "|" + strings.Join(parts, ";")
@@ -291,6 +301,7 @@ func (s *Spec) summary(f *ssa.Function, in *Config, params map[*ssa.Parameter]st
 				}
 			}
 			vals := map[*ssa.Phi]string{}
+			srcs := map[*ssa.Phi]ssa.Value{}
 			for _, in := range it.b.Instrs {
 				phi, ok := in.(*ssa.Phi)
 				if !ok {
@@ -298,10 +309,33 @@ func (s *Spec) summary(f *ssa.Function, in *Config, params map[*ssa.Parameter]st
 				}
 				if idx >= 0 && trackablePhi(phi) {
 					vals[phi] = s.resolve(c, phi.Edges[idx])
+					// a boolean φ (`t := a || b; if t`) stands for its incoming condition on this path
+					if b, isB := phi.Type().Underlying().(*types.Basic); isB && b.Info()&types.IsBoolean != 0 && vals[phi] == Top {
+						if _, isK := phi.Edges[idx].(*ssa.Const); !isK {
+							srcs[phi] = phi.Edges[idx]
+						}
+					}
+				}
+				if idx >= 0 && nilOrValuePhi(phi) {
+					if k, isK := phi.Edges[idx].(*ssa.Const); isK && k.IsNil() {
+						vals[phi] = "nil"
+					} else {
+						vals[phi] = Top
+						srcs[phi] = phi.Edges[idx]
+					}
 				}
 			}
 			if len(vals) > 0 {
 				c = c.clone()
+				for p := range vals {
+					delete(c.phiSrc, p)
+				}
+				for p, v := range srcs {
+					if c.phiSrc == nil {
+						c.phiSrc = map[*ssa.Phi]ssa.Value{}
+					}
+					c.phiSrc[p] = v
+				}
 				for p, v := range vals {
 					if v == Top {
 						delete(c.locals, p)
@@ -396,6 +430,23 @@ func trackablePhi(p *ssa.Phi) bool {
 	return false
 }
 
+// nilOrValuePhi: a pointer/interface φ with at least one literal nil edge (`var err error; if f != nil { err = f() }`).
+// On the nil edge the φ is the constant nil; on the other edges it stands for the incoming value, so that a later
+// test of the φ is named (and decided) like a test of that value.
+func nilOrValuePhi(p *ssa.Phi) bool {
+	switch p.Type().Underlying().(type) {
+	case *types.Pointer, *types.Interface:
+	default:
+		return false
+	}
+	for _, e := range p.Edges {
+		if k, ok := e.(*ssa.Const); ok && k.IsNil() {
+			return true
+		}
+	}
+	return false
+}
+
 // refine splits c on an undecided condition: comparisons of a tracked value with a constant filter/assign;
 // named atoms are recorded; anything else passes c unchanged to both sides.
 func (s *Spec) refine(c *Config, cond ssa.Value) (t, f *Config) {
@@ -440,8 +491,36 @@ func (s *Spec) refine(c *Config, cond ssa.Value) (t, f *Config) {
 		set(cf, "false")
 		return swap(ct, cf)
 	}
+	for i := 0; i < 4; i++ {
+		phi, isPhi := cond.(*ssa.Phi)
+		if !isPhi || c.phiSrc[phi] == nil {
+			break
+		}
+		if _, tracked := c.locals[phi]; tracked {
+			break
+		}
+		cond = c.phiSrc[phi]
+		for {
+			u, ok := cond.(*ssa.UnOp)
+			if !ok || u.Op != token.NOT {
+				break
+			}
+			cond, pol = u.X, !pol
+		}
+	}
 	if s.Atom != nil {
+		if b, isB := cond.(*ssa.BinOp); isB && len(c.phiSrc) > 0 {
+			if phi, isPhi := b.X.(*ssa.Phi); isPhi && c.phiSrc[phi] != nil {
+				nb := *b
+				nb.X = c.phiSrc[phi]
+				cond = &nb
+			}
+		}
 		if name, _, ok := s.Atom(cond); ok {
+			// a name starting with "!" is the negation of the canonical atom (two spellings of one test share a name)
+			if strings.HasPrefix(name, "!") {
+				name, pol = name[1:], !pol
+			}
 			if v, known := c.Atoms[name]; known {
 				if v == pol {
 					return c, nil
